@@ -114,11 +114,45 @@ func refDominates(x, y []float64) bool {
 	return all && some
 }
 
+var domHistory [][2][]float64
+var domTick uint64
+
+func sameFloats(a, b []float64) bool {
+	if len(a) != len(b) {
+		return false
+	}
+	for i := range a {
+		if math.Float64bits(a[i]) != math.Float64bits(b[i]) {
+			return false
+		}
+	}
+	return true
+}
+
 func domPair(c *Ctx, x, y []float64, tag string) {
 	// the float -> integer key map must agree with Go's own comparison on every component pair used
 	for i := range x {
 		if (x[i] < y[i]) != (floatKey(x[i]) < floatKey(y[i])) || (x[i] > y[i]) != (floatKey(x[i]) > floatKey(y[i])) {
 			c.Fail("harness:floatKey-not-monotone", "floatKey", fmt.Sprintf("%v vs %v", x[i], y[i]), nil)
+		}
+	}
+	// history independence: a comparison of ANOTHER pair (usually of another length, not ending in a self-comparison)
+	// is made right before the judged one; its own verdict is judged too.  Without it every judged call would follow a
+	// self-comparison of equal length, and state kept between calls could not show.
+	if n := len(domHistory); n > 0 {
+		domTick++
+		h := domHistory[int((domTick*2654435761)>>7)%n]
+		hx, hy := vecOf(h[0]), vecOf(h[1])
+		var hd bool
+		if pp := protect(func() { hd = hx.Dominates(hy) }); pp == "" && hd != refDominates(h[0], h[1]) {
+			c.Fail("dominates-iff", "dominance:definition", fmt.Sprintf("Dominates(%v,%v)=%v, strict Pareto order says %v (call made between two other comparisons)", h[0], h[1], hd, !hd), []string{domOpLine(h[0], h[1])})
+		}
+	}
+	if len(x) == len(y) && len(x) > 0 && !sameFloats(x, y) {
+		if len(domHistory) < 64 {
+			domHistory = append(domHistory, [2][]float64{x, y})
+		} else {
+			domHistory[int(domTick)%64] = [2][]float64{x, y}
 		}
 	}
 	vx, vy := vecOf(x), vecOf(y)
